@@ -37,13 +37,13 @@ def checkB (rows : List Row) (levels : List Level) (emptyParens : Bool) : Bool :
   let bp := bpOf rows levels
   (List.range rows.length).all (rowOk T G bp (maxLbp rows)) &&
     (List.range levels.length).all (fun i => decide (i + 1 < levels.length → bp i < bp (i + 1))) &&
-    coverB rows levels
+    coverB rows levels && decide (0 < bp 0)
 
 theorem consistent_of_check (rows : List Row) (levels : List Level) (ep : Bool)
     (h : checkB rows levels ep = true) :
     Consistent (tableOf rows) (gramOf levels ep (syms rows)) (bpOf rows levels) (maxLbp rows) := by
   simp only [checkB, Bool.and_eq_true, List.all_eq_true, List.mem_range, decide_eq_true_eq] at h
-  obtain ⟨⟨h1, h2⟩, -⟩ := h
+  obtain ⟨⟨⟨h1, h2⟩, -⟩, -⟩ := h
   constructor
   · intro o
     by_cases ho : o < rows.length
@@ -58,6 +58,11 @@ end EPV.Pratt
 
 namespace EPV.Pratt
 open EPV.Syn
+
+theorem pos_of_check (rows : List Row) (levels : List Level) (ep : Bool)
+    (h : checkB rows levels ep = true) : 0 < bpOf rows levels 0 := by
+  simp only [checkB, Bool.and_eq_true, decide_eq_true_eq] at h
+  exact h.2
 
 /-- the operator token of symbol `s` in a generated table (row index looked up by symbol) -/
 def opTok (rows : List Row) (s : String) : Tok := .op (rows.findIdx (·.sym == s))
@@ -121,8 +126,63 @@ def trigF04d (ver : Nat) (rows : List Row) (spec : Tree) : Bool :=
          (ver == 20 && (match firstTok r with | some (.atom 2 _) => true | _ => false)))
     | _ => false) spec
 
-/-- F04b trigger: the EBNF rejects the token list and the table-driven parser accepts it -/
-def trigF04b (rows : List Row) (spec : Option Tree) (toks : List Tok) : Bool :=
-  spec.isNone && accepts rows toks
+/-! #### which laxities the pinned code has (F04b) -/
+
+/-- guard classes of the optional-once operators: an operator rejects a left operand whose top operator
+is in its own class (general / value / `is` comparisons, `to`); `<<` and `>>` have no guard -/
+def guardClass (s : String) : Nat :=
+  if s ∈ ["=", "!=", "<", "<=", ">", ">="] then 1
+  else if s ∈ ["eq", "ne", "lt", "le", "gt", "ge"] then 2
+  else if s == "is" then 3
+  else if s == "to" then 4
+  else 0
+
+/-- every optional-once operator of a guard class denies every operator of its class as left operand -/
+def guardsB (rows : List Row) : Bool :=
+  (List.range rows.length).all fun o =>
+    let c := guardClass (symOf rows o)
+    c == 0 ||
+      match (tableOf rows).led o with
+      | .infix _ deny _ =>
+          (List.range rows.length).all fun o' => guardClass (symOf rows o') != c || deny.contains (2 * o' + 1)
+      | _ => false
+
+/-- the node uses one of the laxities that the pinned code is known to have (finding F04b), judged
+against the grammar `G` the table is consistent with:
+* L1 a prefix-operator expression as right operand / prefix operand of a tighter operator,
+* L2 a typed-operator expression as left operand of a tighter operator,
+* L3 an optional-once comparison whose left operand is a comparison of a *different* guard class, or a
+  `<<` / `>>` (no guard class) -/
+def nodeLaxOk (rows : List Row) (G : Gram) : Tree → Bool
+  | .pre p x => match G.pre p with
+      | some j => decide (j ≤ lvl G x) || x.isPre
+      | none => false
+  | .bin o l r => match G.led o with
+      | some (j, .left) => (decide (j ≤ lvl G l) || l.isTyped) && (decide (j + 1 ≤ lvl G r) || r.isPre)
+      | some (j, .none) =>
+          (decide (j + 1 ≤ lvl G l) || l.isTyped ||
+            (decide (j ≤ lvl G l) && (match l with
+              | .bin o' _ _ => guardClass (symOf rows o) == 0 || guardClass (symOf rows o) != guardClass (symOf rows o')
+              | _ => false))) &&
+          (decide (j + 1 ≤ lvl G r) || r.isPre)
+      | some (j, .key) => decide (j ≤ lvl G l) || l.isTyped
+      | _ => false
+  | .typed o l _ => match G.led o with
+      | some (j, .typed) => decide (j + 1 ≤ lvl G l) || l.isTyped
+      | _ => false
+  | .post o _ l _ => match G.led o with
+      | some (j, .bracket _ _) => decide (j ≤ lvl G l) || l.isTyped
+      | _ => false
+  | _ => true
+
+def pinnedLax (rows : List Row) (G : Gram) (t : Tree) : Bool := !anyNode (fun n => !nodeLaxOk rows G n) t
+
+/-- F04b trigger: the W3C reference parser rejects the token list, the table-driven parser accepts it, and
+its tree deviates from the grammar the table is consistent with only by the pinned laxities L1–L3 -/
+def trigF04b (rows : List Row) (impl : List Level) (ep : Bool) (spec : Option Tree) (toks : List Tok) : Bool :=
+  spec.isNone &&
+    match modelParse rows toks with
+    | .ok t => pinnedLax rows (gramOf impl ep (syms rows)) t
+    | .error _ => false
 
 end EPV.Pratt
